@@ -16,7 +16,7 @@ def orders(ctx):
     ns = [(c.name, c.order) for c in curves]
     extra = [2, 3, 4, 5, 7, 8, 255, 256, 257, 65535, 65536, 65537, (1 << 61) - 1, (1 << 64) + 13, (1 << 127) - 1]
     ns += [("n=%d" % n, n) for n in extra]
-    for _ in range(3 if ctx.quick else 30):
+    for _ in range(3 if ctx.quick else 120):
         ns.append(("rand", ctx.rng.getrandbits(ctx.rng.choice([9, 33, 70, 161, 300, 521, 600])) | 3))
     return ns
 
@@ -30,7 +30,7 @@ def svalues(ctx, n):
             for d in (-1, 0, 1):
                 vals.add(h + m * (1 << (bl - 53)) + d)
                 vals.add(h - m * (1 << (bl - 53)) + d)
-    for _ in range(4 if ctx.quick else 40):
+    for _ in range(4 if ctx.quick else 200):
         vals.add(ctx.rng.randrange(1, n) if n > 1 else 1)
     return sorted(v for v in vals if 1 <= v < n)
 
